@@ -555,6 +555,8 @@ def _decode_cases(world, cls, name, unsigned, depth=0):
     definer = r[0]
     fn = definer.methods[name][1]
     fn = normalise(fn, world, definer.mod, definer, aliases=False)
+    from ..normal import drop_logging
+    fn = drop_logging(fn, world, definer.mod)
     # a lookup in a class-level table of names reads as the if-chain
     from ..unroll import expand_table_lookups, class_table_resolver
     fx = acopy(fn)
@@ -640,6 +642,30 @@ def _decode_cases(world, cls, name, unsigned, depth=0):
             t1 = acopy(t0)
             t1.body = [ast.copy_location(ast.Return(acopy(
                 t0.body[0].value)), t0.body[0])]
+            t1.orelse = []
+            ast.fix_missing_locations(t1)
+            body = [t1]
+        elif len(tail) == 1 and isinstance(tail[0], ast.Return) and \
+                tail[0].value is not None and sum(
+                    1 for n_ in ast.walk(tail[0].value)
+                    if isinstance(n_, ast.Name) and n_.id == v_) >= 1 and \
+                not any(isinstance(n_, (ast.Await, ast.Yield, ast.YieldFrom,
+                                        ast.NamedExpr))
+                        for n_ in ast.walk(tail[0].value)):
+            # the value is worked on after the try: read as the expression
+            # over the converted value (what the handlers catch is only
+            # compared as a label, so moving the tail inside loses nothing
+            # the comparison of denotations looks at)
+            bound = t0.body[0].value
+
+            class _S2(ast.NodeTransformer):
+                def visit_Name(self, n_):
+                    if isinstance(n_.ctx, ast.Load) and n_.id == v_:
+                        return acopy(bound)
+                    return n_
+            t1 = acopy(t0)
+            t1.body = [ast.copy_location(ast.Return(_S2().visit(acopy(
+                tail[0].value))), t0.body[0])]
             t1.orelse = []
             ast.fix_missing_locations(t1)
             body = [t1]
